@@ -417,6 +417,7 @@ def mm_call_recording(ctx: Ctx, pid: str):
 
 def method_call_lowering(ctx: Ctx, pid: str):
     """C03.c / C04.c,d / C05.d: Method.__call__."""
+    methods_call_forwarding(ctx, pid)
     rule = f"{pid}.method-call"
     fn = _fn(ctx, METHOD, "Method.__call__", rule)
     recs = fn.facts(Effect, lambda e: pmatch("Q_c.method_calls[self].append((Q_p, Q_a, Q_e))", e.call) is not None)
@@ -479,6 +480,24 @@ def method_call_lowering(ctx: Ctx, pid: str):
               required="a call is recorded as unconditional only if enable_call is the constant 1; every other enable (signals, Const(0)) goes through m.If(enable_call)")
     ctx.check(n_plain >= 1 and n_cond >= 1, rule + ".paths", fn.site, "Method.__call__.paths", found=f"{n_plain} recording path(s), {n_cond} conditional re-entry path(s)",
               required="plain calls are recorded; conditional calls are lowered to a call under If")
+
+
+def methods_call_forwarding(ctx: Ctx, pid: str):
+    """Calling a one-element `Methods` object forwards argument, enable_call and keyword arguments to its method."""
+    rule = f"{pid}.methods-call-forwarding"
+    fn = _fn(ctx, METHOD, "Methods.__call__", rule)
+    names = [x.arg for x in fn.fi.node.args.posonlyargs + fn.fi.node.args.args]
+    if "enable_call" not in names or "arg" not in names:
+        raise AnalysisError(rule, fn.site, "Methods.__call__ no longer has (m, arg, enable_call, **kwargs)")
+    arg_p = ("p", fn.fi.qualname, names.index("arg"), "arg")
+    en_p = ("p", fn.fi.qualname, names.index("enable_call"), "enable_call")
+    calls = fn.facts(MethodCall)
+    ok = False
+    detail = "; ".join(f"{tstr(c.callee)}({', '.join(tstr(a) for a in c.args)}, enable={tstr(c.enable) if c.enable else None}, {[k for k, _ in c.kwargs]})" for _, c in calls) or "no call"
+    for ex, c in calls:
+        fwd_en = en_p in c.args or c.enable == en_p
+        ok = ok or (c.callee == pat("self._methods[0]") and arg_p in c.args and fwd_en and any(k is None for k, _ in c.kwargs))
+    ctx.check(ok, rule, fn.site, "Methods.__call__", found=detail, required="self._methods[0](m, arg, enable_call, **kwargs): a conditional call through the collection stays conditional")
 
 
 def pat_eq(a: Term, b: Term) -> Term:
